@@ -218,6 +218,8 @@ class World:
         opts = {}
         if rp:
             opts["receive_progress"] = True
+        elif (iid + k) % 3 == 0:
+            opts["receive_progress"] = False      # an explicit "no": the same as absent
         if details:
             opts["caller"] = 4242
             opts["caller_authid"] = "joe"
